@@ -67,6 +67,39 @@ def inline_blocks(n):
     return n, False
 
 
+def nested_blocks(rng):
+    """Blocks nested 2-4 deep; every level reads a random subset of the outer names, some before and some after the
+    inner block is created, some only in the innermost block (up-value ids are allocated per block in order of first use)."""
+    names = rng.sample(["Z", "C", "A", "M", "B", "Q", "Y", "D"], rng.randint(2, 5))
+    lets = [("let", (n,), rng.choice([("int", 10 + i, "dec"), ("str", [("v%d" % i).encode()]), ("cap", (), ("int", i, "dec"))])) for i, n in enumerate(names)]
+
+    def level(k):
+        items = []
+        for n in rng.sample(names, rng.randint(0, len(names))):
+            items.append(("read", n))
+        if k > 0:
+            inner = ("block", (), level(k - 1))
+            how = rng.random()
+            if how < 0.5:
+                items.insert(rng.randint(0, len(items)), ("cat", [inner, ("word", "apply")]))
+            elif how < 0.8:
+                nm = "Blk%d" % k
+                items.insert(rng.randint(0, len(items)), ("paren", (), ("cat", [("let", (nm,), inner), ("read", nm)])))
+            else:
+                # created here, applied twice
+                nm = "Blk%d" % k
+                items.insert(rng.randint(0, len(items)), ("paren", (), ("cat", [("let", (nm,), inner), ("read", nm), ("word", "drop"), ("read", nm)])))
+        if not items:
+            items = [("int", 0, "dec")]
+        body = ("alt", items) if len(items) > 1 else items[0]
+        return ("cap", (), body)
+    prog = ("cat", lets + [("block", (), level(rng.randint(1, 3))), ("word", "apply")])
+    if rng.random() < 0.4:
+        # several inputs reach the same nested blocks
+        prog = ("cat", [("alt", [("int", 1, "dec"), ("int", 2, "dec")]), prog])
+    return prog
+
+
 def job(payload):
     seed, count, opts = payload
     d = common.get_driver()
@@ -77,6 +110,8 @@ def job(payload):
         closures = rng.random() < 0.5
         g = zgen.Gen(rng, maxdepth=rng.randint(2, 5), err_rate=0.02, closures=closures, shadow=True)
         prog = g.program([])
+        if rng.random() < 0.3:
+            prog = nested_blocks(rng)
         # make it binder heavy: wrap in extra binders around the program
         k = rng.random()
         if k < 0.3:
